@@ -364,4 +364,4 @@ def replay_leading_whitespace(a):
             "note": "; ".join(t["problem"] for t in tried if "problem" in t) or None}
 
 
-SITES = {"C10": [path_construction, extend_usize_wiring, data_file_text_wiring, mark_to_location]}
+SITES = {"C10": [path_construction, extend_usize_wiring, data_file_text_wiring, mark_to_location], "C11": [path_construction]}
